@@ -130,3 +130,49 @@ E('C08', 'square for power', (POI, 'first_term = (numpy.sum(numpy.power((X1 - X2
 E('C08', 'sum of differences split', (POI, 'information_gain = (numpy.sum(X1 - X2) - (N1 - N2)) / N\n\n    # Compute variance of (X1-X2) using Equation (18)  of Rhoades et al. 2011\n    first_term = (numpy.sum(numpy.power((X1 - X2), 2))) / (N - 1)', 'information_gain = (numpy.sum(X1) - numpy.sum(X2) - N1 + N2) / N\n\n    # Compute variance of (X1-X2) using Equation (18)  of Rhoades et al. 2011\n    first_term = (numpy.sum(numpy.power((X1 - X2), 2))) / (N - 1)'))
 E('C08', 'W min args swapped', (POI, 't = min(r_plus, r_minus)', 't = min(r_minus, r_plus)'))
 M('C02', 'point tolerance from origin', 'C02-D2', (CALC, 'p_tol = tol or _get_tolerance(p)', 'p_tol = tol or a0_tol'))
+
+# ------------------------------------------------------------------------------------------------ C06
+M('C06', 'default side (poisson)', 'C06-D3', (POI, "pnts = numpy.searchsorted(sampling_weights, random_numbers, side='right')", "pnts = numpy.searchsorted(sampling_weights, random_numbers)"))
+M('C06', 'side left (brier loop)', 'C06-D3', (BRI, "loc = numpy.searchsorted(sampling_weights, random_num,\n                                     side='right')", "loc = numpy.searchsorted(sampling_weights, random_num,\n                                     side='left')"))
+M('C06', 'if seed: (poisson)', 'C06-D1', (POI, '    if seed is not None:\n        numpy.random.seed(seed)', '    if seed:\n        numpy.random.seed(seed)'))
+M('C06', 'if seed: (MLL)', 'C06-D1', (CEV, '    # set seed\n    if seed is not None:\n        numpy.random.seed(seed)\n\n    test_distribution = []', '    # set seed\n    if seed:\n        numpy.random.seed(seed)\n\n    test_distribution = []'))
+M('C06', 'seed() without arg', 'C06-D1', (BIN, '    if seed is not None:\n        numpy.random.seed(seed)', '    if seed is not None:\n        numpy.random.seed()'))
+M('C06', 'seed constant', 'C06-D1', (BRI, '    if seed is not None:\n        numpy.random.seed(seed)', '    if seed is not None:\n        numpy.random.seed(42)'))
+M('C06', 'seeding after the loop', 'C06-D1', (BRI, '    # set seed for the likelihood test\n    if seed is not None:\n        numpy.random.seed(seed)\n', ''), (BRI, '    obs_brier = _brier_score_ndarray(forecast_data.data, observed_data)\n', '    if seed is not None:\n        numpy.random.seed(seed)\n    obs_brier = _brier_score_ndarray(forecast_data.data, observed_data)\n'))
+M('C06', 'seed not forwarded', 'C06-D1', (POI, '        gridded_forecast.spatial_counts(), gridded_catalog_data,\n        num_simulations=num_simulations,\n        seed=seed,', '        gridded_forecast.spatial_counts(), gridded_catalog_data,\n        num_simulations=num_simulations,\n        seed=None,'))
+M('C06', 'normalise by sum (poisson)', 'C06-D4', (POI, '    sampling_weights = numpy.cumsum(forecast_data.ravel())\n    sampling_weights = sampling_weights / sampling_weights[-1]', '    sampling_weights = numpy.cumsum(forecast_data.ravel()) / numpy.sum(forecast_data)'))
+M('C06', 'masked weights (binary)', 'C06-D5', (BIN, 'sampling_weights = numpy.cumsum(forecast_data.filled(0.0).ravel())', 'sampling_weights = numpy.cumsum(forecast_data.ravel())'))
+M('C06', 'drop fill(0) (poisson)', 'C06-D6', (POI, '    sim_fore.fill(0)\n', ''))
+M('C06', 'reset only on one path (binary)', 'C06-D6', (BIN, "    # Reset simulation array to zero, but don't reallocate\n    sim_fore.fill(0)\n    if random_numbers is None:\n        num_active_cells = 0", "    if random_numbers is None:\n        # Reset simulation array to zero, but don't reallocate\n        sim_fore.fill(0)\n        num_active_cells = 0"))
+M('C06', 'quantile <', 'C06-D8', (POI, 'qs = numpy.sum(simulated_ll <= obs_ll) / num_simulations', 'qs = numpy.sum(simulated_ll < obs_ll) / num_simulations'))
+M('C06', 'quantile divisor +1', 'C06-D8', (BIN, 'qs = numpy.sum(simulated_ll <= obs_ll) / num_simulations', 'qs = numpy.sum(simulated_ll <= obs_ll) / (num_simulations + 1)'))
+M('C06', 'quantile reversed', 'C06-D8', (BRI, 'qs = numpy.sum(simulated_brier <= obs_brier) / num_simulations', 'qs = numpy.sum(obs_brier <= simulated_brier) / num_simulations'))
+M('C06', 'poisson count in CL', 'C06-D7', (POI, '        if use_observed_counts:\n            num_events_to_simulate = int(n_obs)\n        else:', '        if not use_observed_counts:\n            num_events_to_simulate = int(n_obs)\n        else:'))
+M('C06', 'n_fore events', 'C06-D7', (POI, '        if use_observed_counts:\n            num_events_to_simulate = int(n_obs)', '        if use_observed_counts:\n            num_events_to_simulate = int(n_fore)'))
+M('C06', 'rejection loop without ==0 test', 'C06-D7', (BIN, '            if sim_fore[loc] == 0:\n               sim_fore[loc] = 1\n               num_active_cells = num_active_cells + 1', '            sim_fore[loc] = 1\n            num_active_cells = num_active_cells + 1'))
+M('C06', 'assertion dropped', 'C06-D7', (BRI, '    assert sim_fore.sum() == sim_cells, "simulated the wrong number of events!"\n', ''))
+M('C06', 'python random', 'C06-D2', (BRI, 'random_num = numpy.random.uniform(0,1)', 'random_num = numpy.random.default_rng().uniform(0,1)'))
+M('C06', 'active cells = events', 'C06-D7', (BIN, 'n_active_cells = len(numpy.unique(numpy.nonzero(observed_data.ravel())))', 'n_active_cells = int(numpy.sum(observed_data))'))
+E('C06', 'positional right', (POI, "pnts = numpy.searchsorted(sampling_weights, random_numbers, side='right')", "pnts = numpy.searchsorted(sampling_weights, random_numbers, 'right')"))
+E('C06', 'normalise by max', (POI, 'sampling_weights = sampling_weights / sampling_weights[-1]', 'sampling_weights = sampling_weights / sampling_weights.max()'))
+E('C06', 'seed != None', (POI, '    if seed is not None:\n        numpy.random.seed(seed)', '    if seed != None:\n        numpy.random.seed(seed)'))
+E('C06', 'one-line weights', (BRI, '    sampling_weights = numpy.cumsum(forecast_data.filled(0.0).ravel())\n    sampling_weights = sampling_weights / sampling_weights[-1]', '    cumulative = numpy.cumsum(forecast_data.filled(0.0).ravel())\n    sampling_weights = cumulative / cumulative[-1]'))
+
+# ------------------------------------------------------------------------------------------------ C16
+M('C16', 'counts instead of indicator (brier)', 'C16-D', (BRI, 'brier_cell = np.square(prob_success.ravel() - (observations.ravel() > 0))', 'brier_cell = np.square(prob_success.ravel() - observations.ravel())'))
+M('C16', 'brier sign', 'C16-D3', (BRI, 'brier = -2 * brier_cell.sum()', 'brier = 2 * brier_cell.sum()'))
+M('C16', 'brier divide by shape[0] only', 'C16-D3', (BRI, '    for n_dim in observations.shape:\n        brier /= n_dim', '    brier /= observations.shape[0]'))
+M('C16', 'brier prob of zero', 'C16-D3', (BRI, 'prob_success = 1 - poisson.cdf(0, forecast)', 'prob_success = poisson.cdf(0, forecast)'))
+M('C16', 'binary active uses counts', 'C16-D', (BIN, "        first_term = numpy.log(1.0 - numpy.exp(-rates[active]))", "        first_term = numpy.asarray(catalog).ravel()[active] * numpy.log(1.0 - numpy.exp(-rates[active]))"))
+M('C16', 'binary second term sign', 'C16-D3', (BIN, '    second_term = -rates[~active]', '    second_term = rates[~active]'))
+M('C16', 'binary inactive over all bins', 'C16-D3', (BIN, '    second_term = -rates[~active]', '    second_term = -rates'))
+M('C16', 'binary masked .data of product', 'C16-D', (BIN, '    rates = numpy.asarray(forecast, dtype=float).ravel()\n    active = numpy.asarray(catalog).ravel() > 0\n', '    rates = numpy.asarray(forecast, dtype=float).ravel()\n    active = numpy.asarray(catalog).ravel() > 0\n    masked = numpy.ma.masked_where(rates <= 0.0, rates)\n    rates = (1.0 * masked).data\n'))
+M('C16', 'simulated score other callee', 'C16-D4', (BRI, '        current_brier = _brier_score_ndarray(forecast_data.data, sim_fore)', '        current_brier = -2 * numpy.mean(numpy.square(1 - numpy.exp(-forecast_data.data.ravel()) - sim_fore.ravel()))'))
+M('C16', 'masked forecast into kernel', 'C16-D1', (BRI, '    obs_brier = _brier_score_ndarray(forecast_data.data, observed_data)', '    obs_brier = _brier_score_ndarray(forecast_data, observed_data)'))
+M('C16', 'observed score from simulation', 'C16-D4', (BIN, '    obs_ll = binary_joint_log_likelihood_ndarray(forecast_data.data, observed_data)', '    obs_ll = binary_joint_log_likelihood_ndarray(forecast_data.data, sim_fore)'))
+M('C16', 'binary S-test passes full data', 'C16-D4', (BIN, '    qs, obs_ll, simulated_ll = _binary_likelihood_test(\n        gridded_forecast.spatial_counts(),', '    qs, obs_ll, simulated_ll = _binary_likelihood_test(\n        gridded_forecast.data,'))
+M('C16', 'bill scale inverted', 'C16-D3', (POI, '    scale = catalog.event_count / forecast.event_count\n    target_idx', '    scale = forecast.event_count / catalog.event_count\n    target_idx'))
+E('C16', 'brier via exp', (BRI, 'prob_success = 1 - poisson.cdf(0, forecast)', 'prob_success = 1 - numpy.exp(-forecast)'))
+E('C16', 'brier != 0', (BRI, '(observations.ravel() > 0)', '(observations.ravel() != 0)'))
+E('C16', 'brier divide by size', (BRI, '    for n_dim in observations.shape:\n        brier /= n_dim', '    brier /= observations.size'))
+E('C16', 'binary expm1-free reorder', (BIN, '    return numpy.sum(first_term) + numpy.sum(second_term)', '    return numpy.sum(second_term) + numpy.sum(first_term)'))
